@@ -488,6 +488,15 @@ func opC10W2(raw json.RawMessage, o *Out) {
 			}{{"loop", sa}, {"loop-4corners", sa4}, {"polygon", spa},
 				{"ExpandForSubregions", s2.ExpandForSubregions(la.RectBound())}} {
 				_ = vi
+				// A built from its four corners only: a vertex of B that lies on a side of A is not a
+				// vertex of A, and its rounded coordinates may fall an ulp outside A's edge - B is then
+				// not a subregion of A in the sense of the guarantee.  Demand it only for B strictly inside.
+				if v.name == "loop-4corners" {
+					sc := 1 << uint(c.SubLvl)
+					if b[0] <= c.A[0]*sc || b[1] <= c.A[1]*sc || b[0]+b[2] >= (c.A[0]+c.A[2])*sc || b[1]+b[3] >= (c.A[1]+c.A[3])*sc {
+						continue
+					}
+				}
 				rec.add(map[string]any{"ev": "sub", "a": shell, "b": bb,
 					"sa": c10RectKeys(v.sa), "bb": c10RectKeys(rb), "lib": v.sa.Contains(rb)},
 					map[string]any{"sub": sub, "cls": c10W2Cls("sub/"+v.name, c.F, c.G, c.A),
